@@ -17,6 +17,7 @@ pub mod s_filter;
 pub mod s_exec;
 pub mod s_sqlx;
 pub mod s_quote;
+pub mod s_determ;
 
 use common::*;
 use std::io::{BufRead, Write};
@@ -41,6 +42,8 @@ fn streams() -> Vec<(&'static str, GenFn, EvalFn)> {
         ("c08x", s_sqlx::gen_c08x, s_sqlx::eval),
         ("quote", s_quote::gen, s_quote::eval),
         ("values", s_sqlx::gen_values, s_sqlx::eval_values),
+        ("determ", s_determ::gen, s_determ::eval),
+        ("namer", s_determ::gen_namer, s_determ::eval_namer),
         ("c09", s_exec::gen_c09, s_exec::eval_c09),
         ("c01", s_exec::gen_c01, s_exec::eval_c01),
         ("clip", s_exec::gen_clip, s_exec::eval_clip),
